@@ -73,7 +73,7 @@ Definition contributes (E : env) (T : trust) (n : node) (nm : pstr) : Prop :=
   match n with
   | Node h subs =>
       match ukind_of (h_kind h) with
-      | UGeneric => exists own, own_unsafe E T h = Ok own /\ In nm own
+      | UGeneric | UOwn => exists own, own_unsafe E T h = Ok own /\ In nm own
       | UFunction => exists own, fn_unsafe E T h subs = Ok own /\ In nm own
       | UNothing => False
       end
@@ -105,7 +105,8 @@ Proof.
     inversion Hsub as [|h' subs' x Hin Hx]; subst.
     + (* the node itself *)
       cbn [unsafe_tree] in Hu. cbn [contributes] in Hc.
-      destruct (ukind_of (h_kind h)); [contradiction| |].
+      destruct (ukind_of (h_kind h)); [contradiction| | |].
+      * destruct Hc as [own [Ho Hi]]. rewrite Ho in Hu. injection Hu as <-. exact Hi.
       * destruct Hc as [own [Ho Hi]]. rewrite Ho in Hu. injection Hu as <-. exact Hi.
       * destruct Hc as [own [Ho Hi]]. rewrite Ho in Hu. cbn [bind] in Hu.
         destruct (concat_res (map (unsafe_tree E T) subs)); [|discriminate].
@@ -113,6 +114,8 @@ Proof.
     + (* below a child *)
       cbn [unsafe_tree] in Hu.
       destruct (ukind_of (h_kind h)) eqn:UK.
+      * exfalso. rewrite forallb_forall in Hl1. specialize (Hl1 x Hin).
+        destruct x; try discriminate. apply sub_of_leaf in Hx. subst n. exact Hc.
       * exfalso. rewrite forallb_forall in Hl1. specialize (Hl1 x Hin).
         destruct x; try discriminate. apply sub_of_leaf in Hx. subst n. exact Hc.
       * exfalso. rewrite forallb_forall in Hl1. specialize (Hl1 x Hin).
@@ -136,6 +139,7 @@ Proof.
   - cbn [unsafe_tree] in Hu. destruct (ukind_of (h_kind h)) eqn:UK.
     + injection Hu as <-. contradiction.
     + exists (Node h subs). split; [apply sub_refl|]. cbn [contributes]. rewrite UK. eauto.
+    + exists (Node h subs). split; [apply sub_refl|]. cbn [contributes]. rewrite UK. eauto.
     + destruct (own_unsafe E T h) as [own|e] eqn:O; [|discriminate]. cbn [bind] in Hu.
       destruct (concat_res (map (unsafe_tree E T) subs)) as [rest|e] eqn:C; [|discriminate].
       injection Hu as <-. apply in_app_or in Hin as [Hin|Hin].
@@ -148,12 +152,44 @@ Proof.
     destruct j as [| | | | |[|]|[|]]; try discriminate; injection Hu as <-; contradiction.
 Qed.
 
-(* a generic node whose name is not in its trusted list contributes that name *)
+(* a node of a kind that audits its own name (every kind but JsonNode and FunctionNode -- SliceNode included)
+   contributes that name when it is not in its trusted list *)
+Lemma named_contributes E T h subs nm :
+  names_own (h_kind h) = true -> node_name h = Ok nm ->
+  mem nm (node_trusted E T h) = false -> contributes E T (Node h subs) nm.
+Proof.
+  intros UK Hn Hm.
+  assert (O : own_unsafe E T h = Ok [nm]).
+  { unfold own_unsafe, self_safe.
+    assert (K : kind_eqb (h_kind h) KJson = false) by (destruct (h_kind h); try reflexivity; discriminate).
+    rewrite K, Hn. cbn [bind]. rewrite Hm. cbn [bind]. reflexivity. }
+  cbn [contributes]. unfold names_own in UK.
+  destruct (ukind_of (h_kind h)); try discriminate UK; exists [nm]; (split; [exact O | left; reflexivity]).
+Qed.
+
+Lemma names_own_kinds k : names_own k = true <-> (k <> KJson /\ k <> KFunction /\ k <> KFunctionV0).
+Proof.
+  destruct k; unfold names_own; cbn [ukind_of]; split; intros H; try discriminate H; try reflexivity;
+    try (repeat split; discriminate); destruct H as [A [B C]]; congruence.
+Qed.
+
 Lemma generic_contributes E T h subs nm :
   ukind_of (h_kind h) = UGeneric -> node_name h = Ok nm ->
   mem nm (node_trusted E T h) = false -> contributes E T (Node h subs) nm.
+Proof. intros UK. apply named_contributes. unfold names_own. rewrite UK. reflexivity. Qed.
+
+(* ... and a node's own contribution is nothing but that *)
+Lemma contributes_named_inv E T h subs nm :
+  names_own (h_kind h) = true -> contributes E T (Node h subs) nm ->
+  node_name h = Ok nm /\ mem nm (node_trusted E T h) = false.
 Proof.
-  intros UK Hn Hm. cbn [contributes]. rewrite UK. unfold own_unsafe, self_safe.
-  assert (K : kind_eqb (h_kind h) KJson = false) by (destruct (h_kind h); try reflexivity; discriminate).
-  rewrite K, Hn. cbn [bind]. rewrite Hm. cbn [bind]. exists [nm]. split; [reflexivity | left; reflexivity].
+  intros UK Hc.
+  assert (O : exists own, own_unsafe E T h = Ok own /\ In nm own).
+  { cbn [contributes] in Hc. unfold names_own in UK. destruct (ukind_of (h_kind h)); try discriminate UK; exact Hc. }
+  destruct O as [own [Ho Hi]]. unfold own_unsafe, self_safe in Ho.
+  destruct (kind_eqb (h_kind h) KJson).
+  - cbn [bind] in Ho. injection Ho as <-. contradiction.
+  - destruct (node_name h) as [n|e]; cbn [bind] in Ho; [|discriminate Ho].
+    destruct (mem n (node_trusted E T h)) eqn:M; cbn [bind] in Ho; injection Ho as <-; [contradiction|].
+    destruct Hi as [<-|[]]. split; [reflexivity | exact M].
 Qed.
